@@ -2,10 +2,11 @@
 
 Generated: ordered pairs of same-key atoms.
   versions     all ordered pairs over {unversioned} + op (7) x version pool (8 versions x revisions None/1/2/10;
-               no revision for ~), both tiers exhaustive
+               no revision for ~), 201 atoms, both tiers exhaustive
   constraints  all ordered pairs of atoms carrying slot / sub-slot / slot operator / repository / USE deps
                (flags f,g; plain and (+)/(-) default forms; every atom satisfiable on its own) and a blocker prefix
-  hyp          random pairs: mutated versions, mixed constraints
+  hyp          random pairs of versioned atoms: one version and one-edit mutations of it (canonical spelling), own
+               witness universe per pair
 
 Oracle (three parts):
   symmetric  a.intersects(b) == b.intersects(a)
@@ -425,11 +426,11 @@ def check_hyp_pair(ctx, objs, f, g):
 def plan(tier, seed):
     A.preload()
     tasks = []
-    for i in range(8):
-        tasks.append({"task": "versions", "slice": i, "nslices": 8})
+    for i in range(4):  # every slice needs the full atom x package match matrix, so few, larger slices
+        tasks.append({"task": "versions", "slice": i, "nslices": 4})
     for i in range(4):
         tasks.append({"task": "constraints", "slice": i, "nslices": 4})
-    n, ex = (4, 250) if tier == "quick" else (16, 8000)
+    n, ex = (4, 120) if tier == "quick" else (16, 3000)
     for i in range(n):
         tasks.append({"task": "hyp", "examples": ex})
     return tasks
